@@ -108,6 +108,8 @@ type GenesisSpec struct {
 }
 
 type Node struct {
+	EmptyValset bool // the validator set became empty: Tendermint would have stopped the chain
+
 	Home    string
 	Store   *utils.Storage
 	Cfg     *config.Config
@@ -347,6 +349,11 @@ func (n *Node) Block(txs [][]byte, o *BlockOpts) *BlockResult {
 	n.Height = h
 	n.Hashes[h] = res.Hash
 	n.curValidators()
+	if st := n.App.CurrentState(); st != nil && len(st.Validators().GetValidators()) == 0 {
+		// Tendermint refuses a validator update that leaves no validator (the chain stops at this block):
+		// states after it are not reachable by a deployed node, harnesses end the history here
+		n.EmptyValset = true
+	}
 	return res
 }
 
